@@ -21,7 +21,9 @@ from ..core import Check
 THEOREMS = {n: "Props.C15" for n in [
     "C15_routing", "C15_aggregates", "C15_npoints_strategy", "C15_ask_is_trace", "C15_cycle_strategy",
     "C15_cache_coherent", "C15_loss_is_max_of_children", "C15_improvement_strategy", "C15_loss_strategy",
-    "C15_cache_coherent_refuted_unfixed"]}
+    "C15_cache_coherent_refuted_unfixed",
+    "C15_tentative_ask_no_trace", "C15_routing_all", "C15_cycle_strategy_all", "C15_cache_coherent_all",
+    "C15_loss_is_max_of_children_all", "C15_improvement_strategy_all", "C15_loss_strategy_all"]}
 
 PREAMBLE = """From Coq Require Import ZArith PrimFloat List. Import ListNotations.
 From AV Require Import Base.Prelude Base.FloatUtil Model.GenericLearner Model.Balancing Run.OracleChild Run.BalancingRun.
@@ -64,6 +66,8 @@ def feq(a, b):
 # ----------------------------------------------------------------------
 class Oracle:
     """The property text, from scratch, on what the real classes do."""
+
+    f2a_present = f2b_present = True      # set from probe_f2() by run()
 
     def __init__(self, kind, children, recs, b, strategy):
         self.kind, self.children, self.recs, self.b = kind, children, recs, b
@@ -129,15 +133,17 @@ class Oracle:
         self.in_ask = True
 
     def classify_loss(self, real):
-        if any(self.stale_b):
+        # attributed to F2 only while the probe says F2 is present in this tree
+        if self.f2b_present and any(self.stale_b):
             return SIG_F2B
-        if (not real) and any(self.stale_a):
+        if self.f2a_present and (not real) and any(self.stale_a):
             return SIG_F2A
         return None
 
     def after_ask(self, n, commit, ret):
         self.in_ask = False
         pts, imps = ret
+        saved_cycle, saved_a, saved_ask = self.cycle_next, list(self.stale_a), list(self.stale_b_ask)
         if len(pts) != n or len(imps) != n:
             self.err("C15:ask_length", f"ask({n}) returned {len(pts)} points / {len(imps)} improvements")
         for k, ((i, p), imp) in enumerate(zip(pts, imps)):
@@ -153,7 +159,7 @@ class Oracle:
                 else:
                     self.child_reproposed += 1      # the child's own ask proposed a point it already has (LearnerND)
                     self.tainted[i] = True          # its pending set is no longer predictable from the history
-            if not commit or k >= len(self.scans):
+            if k >= len(self.scans):
                 continue
             pre = self.scans[k]
             st = self.strategy
@@ -185,12 +191,16 @@ class Oracle:
                     elif offs[i][0] != hp or not feq(float(imp), offs[i][1]):
                         bad = f"returned ({i},{p!r},{imp}) but child {i} currently offers {offs[i]}"
                     if bad:
-                        sig = SIG_F2B if any(self.stale_b_ask) else "C15:improvement_strategy"
+                        sig = SIG_F2B if (self.f2b_present and any(self.stale_b_ask)) else "C15:improvement_strategy"
                         self.err(sig, "'loss_improvements' " + bad)
             # the served child got a tell_pending
-            self.pend[i].add(hp)
+            if commit:
+                self.pend[i].add(hp)
             self.stale_a[i] = True
             self.stale_b_ask[i] = False
+        if not commit:
+            # a tentative ask leaves no trace: not in the children, not in the rotation, not in the caches
+            self.cycle_next, self.stale_a, self.stale_b_ask = saved_cycle, saved_a, saved_ask
 
     def on_tell(self, i, p, y):
         hp = W.hashable(self.kind, p)
@@ -295,18 +305,27 @@ def drive(spec, hist=None, rng=None, concrete=None):
         k = op[0]
         try:
             if k == "ask":
+                saved = [r.current for r in recs]
+                before = [W.public_state(kind, c) for c in children] if not op[2] else None
                 orc.before_ask()
                 try:
                     ret = b.ask(op[1], tell_pending=op[2])
                 finally:
                     orc.in_ask = False
+                    if not op[2]:
+                        for r, sn in zip(recs, saved):      # utils.restore put the children back
+                            r.restored_to(sn)
                 orc.after_ask(op[1], op[2], ret)
                 pts = [(int(i), W.enc_point(kind, p)) for i, p in ret[0]]
                 if op[2]:
                     outstanding.extend((int(i), p) for i, p in ret[0])
-                    finish_step(op, ("ask", pts, [float(v) for v in ret[1]]), full)
                 else:
-                    stop = "noncommitting-ask"     # F3 (C09): nothing is compared from here on
+                    after = [W.public_state(kind, c) for c in children]
+                    for i, (x, y) in enumerate(zip(before, after)):
+                        if not W.same_state(x, y):
+                            orc.err("C15:tentative_ask_left_trace",
+                                    f"ask({op[1]}, tell_pending=False) changed child {i}: {W.state_diff(x, y)}")
+                finish_step(op, ("ask", pts, [float(v) for v in ret[1]]), full)
             elif k == "tell":
                 p = dec_point(kind, children[op[1]], op[2])
                 b.tell((op[1], p), op[3])
@@ -332,9 +351,7 @@ def drive(spec, hist=None, rng=None, concrete=None):
                 finish_step(op, ("none",), full)
         except IndexError:
             # a child had nothing left to propose (points[0] on an empty answer)
-            if k == "ask" and kind == "seq" and not op[2]:
-                stop = "noncommitting-ask"
-            elif k == "ask" and kind == "seq":
+            if k == "ask" and kind == "seq":
                 for r in recs:
                     r.mark_full()
                 steps.append((op, ("err",), obs_of(kind, b, children, True)))
@@ -403,12 +420,20 @@ def drive(spec, hist=None, rng=None, concrete=None):
     return {"steps": steps, "recs": recs, "oracle": orc, "stop": stop}
 
 
-def gen_history(rng, maxlen, nc_tail):
+def gen_history(rng, maxlen, nc_tail=False):
     h = []
     L = rng.randint(3, maxlen)
     for _ in range(L):
         r = rng.random()
-        if r < 0.27:
+        if r < 0.07:
+            # a tentative batch ask, mostly followed by something that shows whether it left a trace
+            h.append(("ask", rng.choice([1, 2, 2, 3, 3, 4, 0]), False))
+            f = rng.random()
+            if f < 0.45:
+                h.append(("loss", rng.random() < 0.3))
+            elif f < 0.8:
+                h.append(("ask", rng.choice([1, 1, 2]), True))
+        elif r < 0.27:
             h.append(("ask", rng.choice([1, 1, 1, 2, 2, 3, 4, 0]), True))
         elif r < 0.52:
             h.append(("tell", "outstanding", rng.random() < 0.7))
@@ -517,6 +542,7 @@ def run(chk: Check) -> int:
     chk.prove(["theories/Props/C15.vo", "theories/Run/BalancingRun.vo"], THEOREMS)
     a_ok, b_ok = probe_f2()
     rep = a_ok
+    Oracle.f2a_present, Oracle.f2b_present = not a_ok, not b_ok
     chk.log(f"F2 probe on the real class: F2a {'repaired' if a_ok else 'present'}, F2b {'repaired' if b_ok else 'present'}"
             f" -> model run with repaired={rep}")
     ncases = 600 if chk.quick else 5000
@@ -536,7 +562,8 @@ def run(chk: Check) -> int:
         metas.append({"spec": spec, "ops": ops, "origin": origin})
         chk.note_case((spec["kind"], spec["nchild"], spec["strategy"], ops), nontrivial(spec, steps))
         for s in steps:
-            hist_ops[s[0][0]] = hist_ops.get(s[0][0], 0) + 1
+            nm = "ask(tell_pending=False)" if s[0][0] == "ask" and not s[0][2] else s[0][0]
+            hist_ops[nm] = hist_ops.get(nm, 0) + 1
         bkt = f"len<={10 * (len(steps) // 10 + 1)}"
         sizes[bkt] = sizes.get(bkt, 0) + 1
         kk = f"{spec['kind']}x{spec['nchild']}"
@@ -591,7 +618,7 @@ def run(chk: Check) -> int:
                 "npseed": rng.randrange(10 ** 6), "koff": rng.randrange(8),
                 "size": rng.choice([2, 3, 5, 8]) if (kind == "seq" and rng.random() < 0.35) else 60}
         ml = maxlen if kind != "lnd" else min(maxlen, 22)
-        res = drive(spec, gen_history(rng, ml, rng.random() < 0.06), rng)
+        res = drive(spec, gen_history(rng, ml), rng)
         add(spec, res, f"seed{chk.seed}/{k}")
         if len(cases) >= 1500:
             flush(f"cases{k}")
@@ -601,7 +628,7 @@ def run(chk: Check) -> int:
         # every op sequence of length <= 4 over a 9-letter alphabet, after a fixed warm-up, two Learner1D children,
         # each initial strategy
         import itertools
-        alphabet = [("ask", 1, True), ("ask", 2, True), ("tell", "outstanding", False), ("tell", "outstanding", True),
+        alphabet = [("ask", 1, True), ("ask", 2, True), ("tell", "outstanding", False), ("ask", 2, False),
                     ("tell_pending",), ("loss", False), ("loss", True), ("remove_unfinished",), ("strategy", None)]
         warm = [("ask", 3, True), ("tell", "outstanding", False), ("tell", "outstanding", False)]
         for st in STRATS:
@@ -624,14 +651,15 @@ def run(chk: Check) -> int:
     chk.log(f"correspondence: {totals['cases']} cases, {totals['mism']} mismatches, {totals['legal']} legal; oracle signatures {sorted(seen_sig)}")
     return chk.finish(
         rule="histories generated by driving the real BalancingLearner over 1-5 real children of one kind (Learner1D, AverageLearner, "
-             "SequenceLearner, LearnerND): asks of 0-4 points under all four strategies with switches, out-of-order and unsolicited tells, "
+             "SequenceLearner, LearnerND): committing and tentative (tell_pending=False) asks of 0-4 points under all four strategies with switches, out-of-order and unsolicited tells, "
              "tell_pending, loss(real) for both flags, remove_unfinished; non-trivial = >=2 children, an ask of >=2 points, an out-of-order "
              "tell and (a strategy switch or a loss call); distinct by (children, strategy, op list)",
         assumptions=["hand-written model Model/Balancing.v tied to the code by the sampled correspondence only",
                      "children enter the model run as recorded oracle tables (Run/OracleChild.v): only the wrapper's logic is compared",
                      "C15_cache_coherent / loss / improvement theorems assume the child's non-committing ask(1) leaves it unchanged (C09 of the child)",
                      "AverageLearner children are seeded with one result each (F11: loss(real=False) divides by zero otherwise); "
-                     "LearnerND children get no remove_unfinished (F5) and no unsolicited points (F12); non-committing asks end a history (F3, C09)"])
+                     "LearnerND children get no remove_unfinished (F5) and no unsolicited points (F12)",
+                     "the all-histories theorems (tentative asks included) assume utils.restore puts every child back exactly (C09 of the children)"])
 
 
 def replay(doc) -> int:
